@@ -7,7 +7,7 @@ import dispatch
 import guards
 import rlpclass
 from common import short
-from kernel import ok_payload, same_value, strip
+from kernel import feasible_reach, ok_payload, same_value, strip
 from rules.decoder import PROBES, RESERVED
 from rules.typestate import const_int
 
@@ -30,15 +30,33 @@ class ValidatorModel:
             self.problems.append("validator function not found")
             return
         self.an = ctx.an(self.fn)
-        # events on the value cursor (param 2, by value, mutated through &mut)
+        # the value cursor: parameter 2 itself (`mut value`), or a local copy of it
+        # (`let mut rest = value`) - whichever is handed to the decoders by &mut
+        self.cursor = 2
+        best = -1
+        for cand in [2] + [l for l in range(self.fn.arg_count + 1, len(self.fn.locals)) if self._is_copy_of_value(l)]:
+            n = sum(1 for lst in self.an.events(cand, False).values() for ev in lst if ev["kind"] == "mutcall")
+            if n > best:
+                best, self.cursor = n, cand
         self.vevents = []
-        evs = self.an.events(2, False)
+        evs = self.an.events(self.cursor, False)
         order = {b: i for i, b in enumerate(self.an.cfg.rpo())}
         for bb in sorted(evs, key=lambda b: order.get(b, 10**6)):
             for ev in evs[bb]:
                 if ev["kind"] in ("mutcall", "readcall", "read", "write", "escape"):
                     self.vevents.append(ev)
         self.consumers = [ev for ev in self.vevents if ev["kind"] == "mutcall"]
+
+    def _is_copy_of_value(self, l):
+        ds = self.an.defs().get(l, [])
+        if not ds or self.fn.locals[l]["ty"]["s"] != "&[u8]":
+            return False
+        d = min(ds, key=lambda x: (x[0], x[1]))
+        rv = getattr(d[2], "rv", None)
+        if not (rv is not None and rv.kind == "use" and rv.ops[0].kind in ("copy", "move") and rv.ops[0].place.is_local()):
+            return False
+        import shapes
+        return shapes.root_local(self.an, rv.ops[0].place.local, reborrows=True) == 2
 
     def is_key(self, e):
         es = strip(e)
@@ -136,14 +154,33 @@ class ValidatorModel:
                     equal = is_true if t.callee.name == "eq" else (not is_true)
                     if neg:
                         equal = not equal
-                    if not equal and any(ob in cfg.reach(tb, avoid=(t.target,)) for ob in oks):
+                    if not equal and any(ob in feasible_reach(an, tb) for ob in oks):
                         good = False
                 res["v4"] = good
         return res
 
     def _is_value(self, e):
+        """the cursor (what is left of the value), possibly stepped over the
+        payload of the header that was just decoded"""
         from kernel import unmut
         cur = unmut(e)
+        for _ in range(6):
+            p = ok_payload(cur)
+            if p is not None:
+                cur = unmut(p)
+                continue
+            if cur.k == "phi":
+                alts = [unmut(a) for a in cur.a[0]]
+                return all(self._is_value(a) for a in alts)
+            # cursor.get(h.payload_length..) / &cursor[h.payload_length..]
+            if cur.k == "call" and cur.a[0].name in ("get", "index") and len(cur.a[1]) == 2:
+                r = strip(cur.a[1][1])
+                if r.k == "agg" and r.a[0].endswith("RangeFrom"):
+                    st = strip(r.a[1]["start"])
+                    if st.k == "field" and st.a[1] == "payload_length":
+                        cur = unmut(cur.a[1][0])
+                        continue
+            break
         return cur.k == "param" and cur.a[0] == 2
 
     def _after_consumer(self, site, classes):
